@@ -32,7 +32,9 @@ CONSTANTS MaxTok, MaxDecls, MinDecls,
           OnlyFaulty,                        \* emit only programs that carry a fault
           Grow,                              \* simulation: list nonterminals do not stop below this many terminals
           Shadowing,                         \* locals may shadow procedure names
-          ForceAfter                         \* simulation: after this many terminals a fault production is preferred (0 = off)
+          ForceAfter,                        \* simulation: after this many terminals a fault production is preferred (0 = off)
+          Slim,                              \* statement-structure configurations: minimal expressions (1, a variable, `1 = 1`) and only exit/printi/declared callees
+          Balance                            \* simulation: draw the production class (if / while / block / call ...) first, then the instance
 
 VARIABLES phase, plan, tys, stack, out, ntok, cur, fault, lsigs
 vars == <<phase, plan, tys, stack, out, ntok, cur, fault, lsigs>>
@@ -88,7 +90,7 @@ Used == {plan[d].name : d \in DOMAIN plan}
 TypesBefore(d) == {e \in 1..(d - 1) : e <= Len(plan) /\ plan[e].kind = "type" /\ ~plan[e].dup /\ plan[e].name # "main" /\ plan[e].ty # UNK}
 TypeOf(nm, d) == IF nm = "int" THEN INT ELSE plan[CHOOSE e \in TypesBefore(d) : plan[e].name = nm].ty
 TypeRefs(d) == {"int"} \cup {plan[e].name : e \in TypesBefore(d)}
-Dims == {<<>>, <<2>>, <<3>>, <<2, 3>>}
+Dims == IF Slim THEN {<<>>} ELSE {<<>>, <<2>>, <<3>>, <<2, 3>>}
 FaultOn(r) == fault = NoFault /\ r \in Faults
 
 \* add the array types of a type expression; returns [tys, ty]
@@ -235,6 +237,7 @@ DeclRhs(d) ==
           \o (IF e.dup THEN <<>> ELSE <<N("Locals", d, ""), N("Stmts", 0, "")>>)
           \o <<Sym("}"), C, A("endProc", d)>>
 
+SlimHidden == {"printc", "readi", "readc", "time", "clearAll", "setPixel", "drawLine", "drawCircle"}
 Callees == {[name |-> plan[d].name, params |-> plan[d].params, bind |-> "proc:" \o plan[d].name]
               : d \in {e \in DOMAIN plan : plan[e].kind = "proc" /\ plan[e].callable /\ ~plan[e].dup}}
            \cup {[name |-> Builtins[b].name, params |-> [j \in DOMAIN Builtins[b].params |->
@@ -269,7 +272,7 @@ Prods(sym) ==
                       A("enterLocal", [name |-> nm, dims |-> <<>>, base |-> "undefinedtype", d |-> ty]), N("Locals", ty, "")>>
                       : nm \in VarNames \ ScopeNames}
                ELSE {})
-    [] n = "Stmts" -> (IF ntok < Grow /\ Len(stack) < 40 THEN {} ELSE {<<>>}) \cup {<<N("Stmt", 0, sym.x), N("Stmts", 0, "")>>}
+    [] n = "Stmts" -> (IF ntok < Grow /\ Len(stack) < 40 THEN {} ELSE {<<>>}) \cup (IF Slim /\ sym.ty >= 2 THEN {} ELSE {<<N("Stmt", 0, sym.x), N("Stmts", IF Slim THEN sym.ty + 1 ELSE 0, "")>>})
     [] n = "Stmt" ->
          {<<O("Empty", ""), Sym(";"), C>>,
           <<O("Block", ""), Sym("{"), N("Stmts", 0, ""), Sym("}"), C>>,
@@ -277,7 +280,7 @@ Prods(sym) ==
           <<O("While", ""), Kw("while"), Sym("("), N("Expr", BOOL, ""), Sym(")"), N("Stmt", 0, sym.x), C>>}
          \cup (IF sym.x = "closed" THEN {} ELSE {<<O("If", ""), Kw("if"), Sym("("), N("Expr", BOOL, ""), Sym(")"), N("Stmt", 0, ""), C>>})
          \cup (IF VarsReaching(INT) = {} THEN {} ELSE {<<O("Assign", ""), N("Var", INT, ""), Sym(":="), N("Expr", INT, ""), Sym(";"), C>>})
-         \cup {CallRhs(c, CallArgs(c.params)) : c \in {x \in Callees : Callable(x) /\ x.name \notin ScopeNames}}
+         \cup {CallRhs(c, CallArgs(c.params)) : c \in {x \in Callees : Callable(x) /\ x.name \notin ScopeNames /\ (Slim => x.name \notin SlimHidden)}}
          \* ---- fault productions at statement level ----
          \cup (IF FaultOn("AssignmentHasDifferentTypes") /\ VarsReaching(INT) # {}
                THEN {<<Mark("AssignmentHasDifferentTypes")>> \o Culprit("AssignmentHasDifferentTypes",
@@ -327,17 +330,17 @@ Prods(sym) ==
                           THEN {<<Mark("IndexingWithNonInteger"), O("ArrayAccess", "")>> \o VarRhs(v, 0) \o <<Sym("[")>> \o Culprit("IndexingWithNonInteger", CmpInt) \o <<Sym("]"), C>>
                                   : v \in {u \in Usable : IsArr(Scope[u].ty) /\ Base(Scope[u].ty) = INT}} ELSE {})
     [] n = "Expr" -> IF ty = BOOL
-                     THEN {<<O("Binary", o), N("Add", INT, ""), Sym(o), N("Add", INT, ""), C>> : o \in {"<", "="}}
+                     THEN {<<O("Binary", o), N("Add", INT, ""), Sym(o), N("Add", INT, ""), C>> : o \in (IF Slim THEN {"="} ELSE {"<", "="})}
                           \cup (IF FaultOn("ComparisonNonInteger")
                                 THEN {<<Mark("ComparisonNonInteger")>> \o Culprit("ComparisonNonInteger", <<O("Binary", "=")>> \o Paren(CmpInt) \o <<Sym("=")>> \o Paren(CmpInt) \o <<C>>)} ELSE {})
                      ELSE {<<N("Add", INT, "")>>}
-    [] n = "Add" -> {<<N("Mul", INT, "")>>, <<O("Binary", "+"), N("Add", INT, ""), Sym("+"), N("Mul", INT, ""), C>>}
+    [] n = "Add" -> {<<N("Mul", INT, "")>>} \cup (IF Slim THEN {} ELSE {<<O("Binary", "+"), N("Add", INT, ""), Sym("+"), N("Mul", INT, ""), C>>})
                     \cup (IF FaultOn("OperatorDifferentTypes")
                           THEN {<<Mark("OperatorDifferentTypes")>> \o Culprit("OperatorDifferentTypes", <<O("Binary", "+"), N("Add", INT, ""), Sym("+")>> \o Paren(CmpInt) \o <<C>>)} ELSE {})
                     \cup (IF FaultOn("ArithmeticOperatorNonInteger")
                           THEN {<<Mark("ArithmeticOperatorNonInteger")>> \o Culprit("ArithmeticOperatorNonInteger", <<O("Binary", "+")>> \o Paren(CmpInt) \o <<Sym("+")>> \o Paren(CmpInt) \o <<C>>)} ELSE {})
-    [] n = "Mul" -> {<<N("Fac", INT, "")>>, <<O("Binary", "*"), N("Mul", INT, ""), Sym("*"), N("Fac", INT, ""), C>>}
-    [] n = "Fac" -> {IntLit(1), <<O("Unary", "-"), Sym("-"), N("Fac", INT, ""), C>>, Paren(<<N("Expr", INT, "")>>)}
+    [] n = "Mul" -> {<<N("Fac", INT, "")>>} \cup (IF Slim THEN {} ELSE {<<O("Binary", "*"), N("Mul", INT, ""), Sym("*"), N("Fac", INT, ""), C>>})
+    [] n = "Fac" -> {IntLit(1)} \cup (IF Slim THEN {} ELSE {<<O("Unary", "-"), Sym("-"), N("Fac", INT, ""), C>>, Paren(<<N("Expr", INT, "")>>)})
                     \cup (IF VarsReaching(INT) = {} THEN {} ELSE {<<N("Var", INT, "")>>})
 
 MinTok(sym) ==
@@ -362,8 +365,26 @@ IsFaultRhs(rhs) == rhs # <<>> /\ rhs[1].t = "act" /\ rhs[1].k = "fault"
 Choices(sym) ==
   LET ps == Prods(sym) fps == {rhs \in ps : IsFaultRhs(rhs)} IN
   IF ForceAfter > 0 /\ fault = NoFault /\ ntok >= ForceAfter /\ fps # {} /\ RandomElement(1..3) = 1 THEN fps ELSE ps
+\* (simulation only) TLC's simulator draws uniformly among successor states, and a statement has far more call
+\* instances (callee x arguments) than if / while / block shapes; with Balance the class of the production
+\* (its first symbol) is drawn first, so that every statement shape is equally likely (expressions stay
+\* uniform over instances: a class-balanced expression grammar is supercritical and eats the token budget).
+\* Exhaustive configurations keep Balance = FALSE: there every production is a successor anyway.
+ClassOf(rhs) == IF rhs = <<>> THEN <<"eps", "">> ELSE <<rhs[1].t, rhs[1].k>>
+ExprNts == {"Expr", "Add", "Mul", "Fac"}
+SimpleRhs(rhs) == Len(rhs) = 1 \/ \A j \in DOMAIN rhs : ~(rhs[j].t = "nt" /\ rhs[j].k \in ExprNts)
 Expand == /\ phase = "derive" /\ stack # <<>> /\ Head(stack).t = "nt"
-          /\ \E rhs \in Choices(Head(stack)) : stack' = rhs \o Tail(stack)
+          /\ IF Balance /\ Head(stack).k = "Stmt"
+             THEN \E ps \in {{r \in Choices(Head(stack)) : ntok + Owed(r \o Tail(stack)) <= MaxTok}} :
+                    /\ ps # {}
+                    /\ \E cls \in {RandomElement({ClassOf(r) : r \in ps})} :
+                         \E rhs \in {r \in ps : ClassOf(r) = cls} : stack' = rhs \o Tail(stack)
+             ELSE IF Balance /\ Head(stack).k \in {"Add", "Mul", "Fac"}
+             THEN \* three times in four an expression level stops growing (the uniform choice is supercritical:
+                  \* the first expression of a program would eat the whole token budget)
+                  \E ps \in {Choices(Head(stack))} : \E d \in {RandomElement(1..4)} :
+                    \E rhs \in (IF d > 1 /\ \E r \in ps : SimpleRhs(r) THEN {r \in ps : SimpleRhs(r)} ELSE ps) : stack' = rhs \o Tail(stack)
+             ELSE \E rhs \in Choices(Head(stack)) : stack' = rhs \o Tail(stack)
           /\ UNCHANGED <<phase, plan, tys, out, ntok, cur, fault, lsigs>>
 Shift == /\ phase = "derive" /\ stack # <<>> /\ Head(stack).t \in {"tok", "open", "close"}
          /\ out' = Append(out, Head(stack)) /\ stack' = Tail(stack)
